@@ -308,6 +308,9 @@ def gcd(*a):
 def lcm2(a, b):
     """Least common multiple of two integers."""
 
+    if not a or not b:
+        # the only common multiple of zero and anything is zero
+        return 0
     return (a * b) // gcd(a, b)
 
 
